@@ -53,6 +53,49 @@ CLAIMED = {
         technique="contract-based deductive verification: contracts incl. fresh-allocation frames, VCs from clang's "
                   "AST, z3 bit-vectors",
     ),
+    'C09': dict(
+        category='proof', engine='pyvc',
+        text="Parser._parse_constant and _c_div are verified per AST node class and operator (structural induction "
+             "through the function's own contract): for every pair of operand values each of + - * / % << >> & | ^ "
+             "and unary +/- yields the C value whenever C defines it (truncating division and remainder proved "
+             "against an independent definition), plain and escaped character constants have their C value, a "
+             "previously declared constant yields its stored value, unsupported operators are rejected. Counter-"
+             "models are replayed against gcc.",
+        design_ref='DESIGN.md section 4 C09',
+        note="Trusted: z3; the Python VC generator vf/pyexec.py (A-PY semantics); float division is over-"
+             "approximated by reals within relative error 2^-53. Not decided: literal text -> value (decimal/octal/"
+             "hex digits, suffixes), typing of constants (cffi computes on unbounded ints: unsigned wrap-around is a "
+             "recorded divergence, see DESIGN.md), '#define' and 'static const' literals, enumerator auto-increment.",
+        technique="contract-based deductive verification of the real Python function: path-wise VCs from ast.parse, "
+                  "z3 integers/strings",
+    ),
+    'C10': dict(
+        category='proof', engine='pyvc',
+        text="EnumType.build_baseinttype is verified for all (smallest, largest) enumerator values: it returns "
+             "int/long/unsigned int/unsigned long exactly when gcc's rule chooses that type and raises CDefError "
+             "exactly when no 64-bit type fits; counter-models are replayed against gcc in in-line and out-of-line "
+             "ABI mode.",
+        design_ref='DESIGN.md section 4 C10',
+        note="Trusted: z3; vf/pyexec.py; ffi.sizeof(int)=4 / sizeof(long)=8 (C06's subject); min/max of the value "
+             "tuple as two ghost integers. Not decided here: enumerator values (C09), API mode (compiler-reported "
+             "size), ffi.string() of enum cdata (backend b_new_enum_type).",
+        technique="contract-based deductive verification of the real Python function: path-wise VCs from ast.parse, "
+                  "z3 integers",
+    ),
+    'C30': dict(
+        category='proof', engine='pyvc',
+        text="Exception-escape obligations on the real constant-expression evaluator: for every AST node class and "
+             "operator and all operand values, no built-in operation of Parser._parse_constant/_c_div can raise "
+             "anything but CDefError/FFIError (division by zero, negative shift counts, missing dict keys, string "
+             "indexing are each an obligation). The '#define' literal path is covered by a labelled bounded "
+             "stand-in on the real code (all values up to length 4/5 over a 14-letter alphabet).",
+        design_ref='DESIGN.md section 4 C30',
+        note="Trusted: z3; vf/pyexec.py. Not decided: pycparser, the regex preprocessing, the rest of cparser.py, "
+             "and the C type-string parser parse_c_type.c (never-reads-outside-the-string). The bounded stand-in is "
+             "reported under bounded_stand_ins and never counted as proved.",
+        technique="contract-based deductive verification (exception-escape obligations, path-wise VCs, z3) plus a "
+                  "bounded exhaustive stand-in for literal processing",
+    ),
     'C16': dict(
         category='proof',
         text="Index, slice and pointer-arithmetic functions are verified against the byte model: an array index is "
